@@ -147,6 +147,7 @@ impl Fmt<'_> {
 
     pub fn command(&self, c: &Command<E>) -> String {
         match c {
+            Command::WatchProcess { process_id } => format!("(WatchProcess {})", process_id),
             Command::UpdateProgram(u) => format!(
                 "(UpdateProgram (consts {}) (fns {}) (tuples {}) (types {}) (builtins {}))",
                 u.constants.len(),
@@ -252,6 +253,7 @@ impl Fmt<'_> {
 
     pub fn event(&self, e: &Event<E>) -> String {
         match e {
+            Event::ProcessTerminated { process_id } => format!("(ProcessTerminated {})", process_id),
             Event::SpawnAction {
                 caller,
                 function_index,
@@ -268,7 +270,7 @@ impl Fmt<'_> {
                     .collect::<String>(),
                 self.xval(argument, heap)
             ),
-            Event::DeliverAction { target, message, heap } => {
+            Event::DeliverAction { target, message, heap, .. } => {
                 format!("(DeliverAction {} {})", target, self.xval(message, heap))
             }
             Event::AwaitAction { awaiter, targets } => format!(
